@@ -598,7 +598,6 @@ class CSSParser:
                 sel.flags |= ct.SEL_ROOT
             elif pseudo == ':defined':
                 sel.flags |= ct.SEL_DEFINED
-                is_html = True
             elif pseudo == ':scope':
                 sel.flags |= ct.SEL_SCOPE
             elif pseudo == ':empty':
@@ -1009,8 +1008,6 @@ class CSSParser:
                     has_selector = self.parse_pseudo_lang(sel, m, has_selector)
                 elif key == 'pseudo_dir':
                     has_selector = self.parse_pseudo_dir(sel, m, has_selector)
-                    # Currently only supports HTML
-                    is_html = True
                 elif key == 'pseudo_close':
                     if not has_selector:
                         if not is_forgive:
